@@ -502,6 +502,49 @@ def run(ctx) -> None:
     ctx.ob("C11.R7-validator-sees-every-key", unknown[0] if unknown else vos, bool(unknown),
            "validate_object_schema reports keys that are not in the schema (FlowIRKeyUnknown)" if unknown else
            "validate_object_schema no longer reports unknown keys", construct="validate_object_schema -> FlowIRKeyUnknown")
+    # .. and for EVERY key: in the loop over the keys of a dictionary each iteration either queues the key's value for validation (the key
+    # matched a rule of the schema) or records FlowIRKeyUnknown.  An iteration that does neither accepts a misspelt option silently.
+    vcfg = CFG(vos)
+    ctx.paths += vcfg.paths_count()
+    unk_nodes = [n for n in vcfg.nodes if n.ast is not None and n.kind == "stmt" and any(
+        isinstance(x, ast.Call) and (call_name(x) or "").endswith("FlowIRKeyUnknown") for x in ast.walk(n.ast))]
+    key_loops = [n for n in vcfg.nodes if n.kind == "for" and isinstance(n.ast, ast.For) and any(u.ast is x for u in unk_nodes for x in ast.walk(n.ast))
+                 and not any(isinstance(inner, ast.For) and inner is not n.ast and any(u.ast is x for u in unk_nodes for x in ast.walk(inner))
+                             and isinstance(inner.orelse, list) and not any(u.ast is x for u in unk_nodes for st_ in inner.orelse for x in ast.walk(st_))
+                             for inner in ast.walk(n.ast))]
+    # the outermost loop whose body holds the record and whose iteration variable is the key looked up in the object
+    key_loops = [n for n in key_loops if isinstance(n.ast.target, ast.Name) and any(
+        isinstance(x, ast.Subscript) and isinstance(x.slice, ast.Name) and x.slice.id == n.ast.target.id for x in ast.walk(n.ast))]
+    ctx.require(bool(key_loops) or not unk_nodes, "anchor missing: the loop over the keys of a dictionary in validate_object_schema")
+    for kl in key_loops[:1]:
+        kv = kl.ast.target.id
+        queued = [n for n in vcfg.nodes if n.ast is not None and n.kind == "stmt" and any(n.ast is x for x in ast.walk(kl.ast)) and any(
+            isinstance(c_, ast.Call) and last_attr(c_) in ("append", "extend", "insert") for c_ in own_calls(n.ast)) and not any(u is n for u in unk_nodes)
+            and any(isinstance(v_, ast.Assign) and any(isinstance(x, ast.Subscript) and isinstance(x.slice, ast.Name) and x.slice.id == kv for x in ast.walk(v_.value))
+                    for v_ in ast.walk(kl.ast) if isinstance(v_, ast.Assign) and any(isinstance(t_, ast.Name) and any(
+                        isinstance(a_, ast.Name) and a_.id == t_.id for c_ in own_calls(n.ast) for a_ in c_.args) for t_ in v_.targets))]
+        ctx.require(bool(queued), "anchor missing: the statements that queue a matched key's value in validate_object_schema")
+        body_start = [m for (m, lab) in kl.succ if lab == "iter"]
+        r = vcfg.reach(body_start, blocked=queued + unk_nodes, ignore_labels=("exc", "raise", "uncaught"))
+        # a boolean local that is raised only behind a queuing statement ('matched = True' after 'remaining.append(entry)') is still false
+        # on every path that has not queued the key: the true side of its tests is infeasible there
+        infeasible = []
+        for (tn, lab) in match.test_nodes(vcfg, lambda t: match.polarity(t, lambda e: isinstance(e, ast.Name))):
+            nm = tn.ast.id if isinstance(tn.ast, ast.Name) else next((x.id for x in ast.walk(tn.ast) if isinstance(x, ast.Name)), None)
+            sets_true = [n for n in vcfg.nodes if n.kind == "stmt" and isinstance(n.ast, ast.Assign) and any(isinstance(t_, ast.Name) and t_.id == nm for t_ in n.ast.targets)
+                         and not (isinstance(n.ast.value, ast.Constant) and n.ast.value.value in (False, None, 0))]
+            inits = [n for n in sets_true if not any(n.ast is x for x in ast.walk(kl.ast))]
+            if nm and sets_true and not inits and not any(n.id in r for n in sets_true):
+                infeasible.append((tn.id, lab))
+        if infeasible:
+            r = vcfg.reach(body_start, blocked=queued + unk_nodes, blocked_edges=infeasible, ignore_labels=("exc", "raise", "uncaught"))
+        ok = kl.id not in r
+        ctx.ob("C11.R7-validator-sees-every-key", kl.ast, ok,
+               "every key of a dictionary is either queued for validation under a matching rule or reported as unknown" if ok else
+               "an iteration of the loop over the keys of a dictionary can end without queuing the key's value under a matching rule and without "
+               "recording FlowIRKeyUnknown: a misspelt option in a section whose schema has required keys only (resourceRequest: {numberProcesess: 4}, "
+               "resourceManager.config: {backnd: ..}) loads, and the default is used silently",
+               construct="validate_object_schema: every key is matched or reported")
 
     # ---------------- R6 -------------------------------------------------------------------------------
     from checks.c04 import undefined_variable_rules
